@@ -435,6 +435,11 @@ structure FieldKind where
 inductive Dflt | missing | isNone | value
   deriving DecidableEq, Repr
 
+/-- `contains_dataclass_type_arg` (utils.py:535-545) as `DataclassWrapper.__init__` uses it (dataclass_wrapper.py:133-166):
+    the annotation is a dataclass, or a union one of whose members is (`Optional[Child]`, `Child | None`).  (Lists /
+    tuples of dataclasses raise `NotImplementedError` before and are outside the fragment.) -/
+def containsDc (a : Ann) : Bool := isDataclass a || (isUnion a && (getArgs a).any isDataclass)
+
 /-- non-`None` members of an optional; `Union[tuple(non_none_types)]` when more than one -/
 def wrappedType (a : Ann) : Ann :=
   match (getArgs a).filter (fun t => !isNoneType t) with
@@ -447,9 +452,9 @@ def required0 (a : Ann) (d : Dflt) : Bool := !isOptional a && d != .value
 
 /-- which branch of `get_arg_options` a field of (resolved) type `a` takes, with `nargs`, `type=`, `required=`.
     The dataclass test is `DataclassWrapper.__init__`'s (dataclass_wrapper.py:133-166: a nested wrapper is built
-    instead of a field — through `is_dataclass` or, with a `None` default, `contains_dataclass_type_arg`). -/
+    instead of a field — through `is_dataclass` or `contains_dataclass_type_arg`, see `containsDc`). -/
 def kind (a : Ann) (d : Dflt) : FieldKind :=
-  if isDataclass a then ⟨.nested, false, .none, Option.none, Option.none⟩
+  if containsDc a then ⟨.nested, false, .none, Option.none, Option.none⟩
   else if isOptional a || d == .isNone then
     let w := if isOptional a then wrappedType a else a
     if isTuple w then ⟨.optional, false, containerNargs w, some (parsingFn w), Option.none⟩
@@ -464,6 +469,45 @@ def kind (a : Ann) (d : Dflt) : FieldKind :=
   else if isTuple a then ⟨.tuple, required0 a d, containerNargs a, some (parsingFn a), Option.none⟩
   else if isBool a then ⟨.bool, required0 a d, .none, Option.none, Option.none⟩
   else ⟨.plain, required0 a d, .none, some (parsingFn a), Option.none⟩
+
+/-! ### `FieldWrapper.postprocess` (field_wrapper.py:460-533): the annotation is looked at once more -/
+
+/-- which conversion `postprocess` applies to the value argparse produced -/
+inductive PostK
+  /-- `is_enum`: a `str` is looked up by name (`E[raw]`), anything else returned -/
+  | enumLookup
+  /-- `is_tuple`: `tuple(raw)` unless it already is a tuple -/
+  | toTuple
+  /-- `is_bool`, and every fall-through: the value unchanged -/
+  | same
+  /-- `is_list`: a tuple becomes a list -/
+  | toList
+  /-- `is_optional` whose *first* type argument is a tuple type: a list becomes a tuple -/
+  | optTuple
+  /-- `type not in builtin_types`: `type(raw)` is tried with a plain class … -/
+  | callCls (c : Cls)
+  /-- … or with a `typing.Union` / `types.UnionType` object, which cannot be called: the exception is swallowed -/
+  | callFails
+  deriving DecidableEq, Repr
+
+/-- `builtin_types` (utils.py:63-65): classes exported by `builtins` -/
+def inBuiltins : Cls → Bool
+  | .int => true | .float => true | .str => true | .bool => true
+  | _ => false
+
+/-- the arm of `postprocess` a field of resolved type `a` takes (choice / sub-parser fields are outside the fragment) -/
+def postBranch (a : Ann) : PostK :=
+  if isEnum a then .enumLookup
+  else if isTuple a then .toTuple
+  else if isBool a then .same
+  else if isList a then .toList
+  else if isOptional a then
+    match getArgs a with
+    | item :: _ => if isTuple item then .optTuple else .same
+    | [] => .same
+  else match a with
+    | .cls c => if inBuiltins c then .same else .callCls c
+    | _ => .callFails
 
 /-- `parser.add_argument(type=f)` raises `ValueError` when `f` is not callable -/
 def notCallable : Option Conv → Bool
